@@ -337,19 +337,50 @@ func (r *Run) protoEncodeStruct(g *Goroutine, st *types.Struct, s Struct) []Valu
 		key := f.num<<3 | wireTypeOf(f.wire)
 		switch f.wire {
 		case "varint", "zigzag32", "zigzag64", "fixed32", "fixed64":
-			// proto3: zero values are not emitted; a symbolic value is always emitted
+			// proto3: zero values are not emitted. A CONCRETE scalar gets its real encoding (varint / zigzag /
+			// fixed), so concrete messages have exactly their native length and offsets; a SYMBOLIC scalar is always
+			// emitted, in the model form "key with wire type 1 + 8 bytes", which keeps the layout concrete.
+			var conc uint64
+			isConc := true
 			switch x := v.(type) {
 			case uint64:
-				if x == 0 {
-					continue
-				}
+				conc = x
 			case bool:
-				if !x {
-					continue
+				if x {
+					conc = 1
+				}
+			default:
+				isConc = false
+			}
+			if !isConc {
+				out = appendUvarint(out, f.num<<3|1)
+				out = append(out, r.int64Bytes(v, f.typ)...)
+				continue
+			}
+			if conc == 0 {
+				continue
+			}
+			if k := intKindOf(f.typ); k.signed && k.w > 0 && k.w < 64 && conc&(1<<(k.w-1)) != 0 {
+				conc |= ^uint64(0) << k.w // sign-extend: negative int32 varints take 10 bytes
+			}
+			switch f.wire {
+			case "varint":
+				out = appendUvarint(out, f.num<<3|0)
+				out = appendUvarint(out, conc)
+			case "zigzag32", "zigzag64":
+				out = appendUvarint(out, f.num<<3|0)
+				out = appendUvarint(out, (conc<<1)^uint64(int64(conc)>>63))
+			case "fixed32":
+				out = appendUvarint(out, f.num<<3|5)
+				for i := 0; i < 4; i++ {
+					out = append(out, uint64(byte(conc>>(8*i))))
+				}
+			case "fixed64":
+				out = appendUvarint(out, f.num<<3|1)
+				for i := 0; i < 8; i++ {
+					out = append(out, uint64(byte(conc>>(8*i))))
 				}
 			}
-			out = appendUvarint(out, key)
-			out = append(out, r.int64Bytes(v, f.typ)...)
 		case "bytes":
 			emit := func(payload []Value) {
 				out = appendUvarint(out, key)
@@ -449,14 +480,62 @@ func (r *Run) protoDecodeStruct(g *Goroutine, st *types.Struct, s Struct, b []Va
 			return protoErr
 		}
 		var f *protoField
+		isScalar := func(w string) bool { return w != "bytes" }
 		for i := range fields {
-			if fields[i].num == num && wireTypeOf(fields[i].wire) == wt {
-				f = &fields[i]
+			if fields[i].num != num {
+				continue
+			}
+			fw := fields[i].wire
+			switch wt {
+			case 0:
+				if fw == "varint" || fw == "zigzag32" || fw == "zigzag64" {
+					f = &fields[i]
+				}
+			case 1:
+				// real fixed64, or the model form of a symbolic scalar of any kind
+				if isScalar(fw) {
+					f = &fields[i]
+				}
+			case 5:
+				if fw == "fixed32" {
+					f = &fields[i]
+				}
+			case 2:
+				if fw == "bytes" {
+					f = &fields[i]
+				}
 			}
 		}
 		switch wt {
-		case 0, 1, 5:
-			// model: every fixed-size / varint scalar occupies 8 bytes
+		case 0:
+			val, ok := r.readUvarint(g, b, &pos)
+			if !ok {
+				return "unexpected EOF"
+			}
+			if f == nil {
+				continue // unknown field: skipped
+			}
+			if f.wire == "zigzag32" || f.wire == "zigzag64" {
+				val = (val >> 1) ^ -(val & 1)
+			}
+			if isBoolType(f.typ) {
+				s[f.index] = val != 0
+			} else if k := intKindOf(f.typ); k.w == 0 {
+				s[f.index] = val != 0
+			} else {
+				s[f.index] = k.norm(val)
+			}
+		case 5:
+			if pos+4 > len(b) {
+				return "unexpected EOF"
+			}
+			raw := append(append([]Value{}, b[pos:pos+4]...), uint64(0), uint64(0), uint64(0), uint64(0))
+			pos += 4
+			if f == nil {
+				continue
+			}
+			s[f.index] = r.intFromBytes(raw, f.typ)
+		case 1:
 			if pos+8 > len(b) {
 				return "unexpected EOF"
 			}
